@@ -7,6 +7,8 @@ package memcall
 //@ ghost field mapped(ref) bool default false
 //@ ghost field locked(ref) bool default false
 //@ ghost field prot(ref) int
+// relfail counts the release steps (Unlock, Free) that reported failure: a caller that saw none knows its cleanup worked
+//@ ghost var relfail int counter
 
 // protection flags as small integers: 0 = no access, 1 = read-only, 2 = read-write
 //@ spec fn flagcode(f MemoryProtectionFlag) int
@@ -49,16 +51,18 @@ package memcall
 //@ iface Unlocker.Unlock
 //@   names b
 //@   requires [C12:wiped-before-unlock] allzero(b)
-//@   modifies locked(arr(b))
+//@   modifies locked(arr(b)), relfail
 //@   ensures err == nil ==> !locked(arr(b))
 //@   ensures err != nil ==> locked(arr(b)) == old(locked(arr(b)))
+//@   ensures relfail == old(relfail) + (if err != nil then 1 else 0)
 
 //@ iface Freer.Free
 //@   names b
 //@   requires [C12:wiped-before-free] allzero(b)
-//@   modifies mapped(arr(b))
+//@   modifies mapped(arr(b)), relfail
 //@   ensures err == nil ==> !mapped(arr(b))
 //@   ensures err != nil ==> mapped(arr(b)) == old(mapped(arr(b)))
+//@   ensures relfail == old(relfail) + (if err != nil then 1 else 0)
 
 // ---- C12: Clean attempts both steps whatever the first returns, and reports an error iff either failed ----
 //@ func Clean
@@ -66,6 +70,7 @@ package memcall
 //@   safety C12
 //@   requires c != nil
 //@   requires [C12:wiped-before-release] allzero(b)
-//@   modifies locked(arr(b)), mapped(arr(b))
+//@   modifies locked(arr(b)), mapped(arr(b)), relfail
+//@   ensures [C12:error-iff-a-release-step-failed] (err == nil) == (relfail == old(relfail))
 //@   ensures [C12:both-steps-attempted-error-iff-either-failed] (err == nil) == (ret(Unlock, 1, 0) == nil && ret(Free, 1, 0) == nil)
 //@   ensures [C12:clean-success-releases-the-page] err == nil ==> !locked(arr(b)) && !mapped(arr(b))
